@@ -192,7 +192,7 @@ func c10shRunImpl(input string) *c10shImpl {
 	}
 	if noProgress {
 		// ShAtoms() and ShToken() have no guard: they would not return
-		secs = append(secs, "s:!skipped", "t:!skipped")
+		secs = append(secs, "s:!skipped", "t:!skipped", "x:!skipped")
 		im.line = strings.Join(secs, "|")
 		return im
 	}
@@ -228,7 +228,30 @@ func c10shRunImpl(input string) *c10shImpl {
 			if rest != "" {
 				im.flags |= 8
 			}
+			// splitIntoShellTokens: the token strings are the texts of these tokens, the rest is this rest
+			stoks, srest, span := pkglint.VerifC10shSplit(input)
+			if span != "" {
+				secs = append(secs, "x:!panic")
+				im.bad = append(im.bad, c10shBad{"C10/sh/panic", fmt.Sprintf("splitIntoShellTokens on %q: %s", input, span)})
+			} else {
+				hs := make([]string, len(stoks))
+				same := len(stoks) == len(toks) && srest == rest
+				for i, t := range stoks {
+					hs[i] = hx(t)
+					if same && t != toks[i].Text {
+						same = false
+					}
+				}
+				secs = append(secs, "x:"+strings.Join(hs, ",")+";"+hx(srest))
+				if !same {
+					im.bad = append(im.bad, c10shBad{"C10/sh/split-differs-from-shtoken",
+						fmt.Sprintf("splitIntoShellTokens(%q) = %q rest %q, but repeated ShToken gives %d tokens and rest %q", input, stoks, srest, len(toks), rest)})
+				}
+			}
 		}
+	}
+	if len(secs) == 15 {
+		secs = append(secs, "x:!skipped") // ShToken panicked
 	}
 	im.line = strings.Join(secs, "|")
 	return im
@@ -511,6 +534,8 @@ func c10shSectionName(sec string) (key, broken string) {
 		return "shatoms", "correspondence ShTokenizer.ShAtoms = Model.ShTok.sh_atoms"
 	case name == "t":
 		return "shtoken", "correspondence repeated ShTokenizer.ShToken = Model.ShTok.sh_tokens"
+	case name == "x":
+		return "split", "correspondence splitIntoShellTokens = Model.ShTok.split_tokens"
 	case strings.HasPrefix(name, "a"):
 		q, _ := strconv.Atoi(name[1:])
 		if q >= 0 && q < 13 {
@@ -605,7 +630,9 @@ func c10shExplain(ctx *Ctx, res *Result, input, family string) {
 		}
 		name, broken := c10shSectionName(is[i])
 		var holds, decided bool
-		if strings.HasPrefix(is[i], "t:") {
+		if strings.HasPrefix(is[i], "x:") {
+			holds, decided = len(im.bad) == 0, true // judged by the harness' own comparison with the ShToken loop
+		} else if strings.HasPrefix(is[i], "t:") {
 			holds, decided = c10shTokenSpecOnImpl(ctx, input, is[i])
 		} else {
 			holds, decided = c10shSpecOnImpl(ctx, input, is[i])
@@ -972,7 +999,7 @@ func runC10sh(ctx *Ctx) *Result {
 	res := &Result{Rule: "inputs: all byte strings of length <= L (quick 4, thorough 5) over 28 bytes, one per class of bytes the shell tokenizer distinguishes; " +
 		"all strings <= 3 over a second representative of every class; all strings <= 2 over all 256 bytes; every byte in 3 x 14 contexts; " +
 		"backslash + all strings <= 4 over 17 UTF-8 structure bytes; seeded grammar-guided and random strings up to 60 bytes. " +
-		"Each input is run from all 13 quoting states (ShAtom loop), through ShAtoms() and through repeated ShToken() = 15 traces per input. " +
+		"Each input is run from all 13 quoting states (ShAtom loop), through ShAtoms() and through repeated ShToken() and splitIntoShellTokens = 16 traces per input. " +
 		"distinct_nontrivial = distinct inputs for which the ShAtom loop from the plain state returns at least two atoms or leaves the plain state"}
 	r := &c10shRun{ctx: ctx, res: res, seenNT: map[string]struct{}{}, explained: map[string]int{}}
 	rng := NewRng(ctx.Seed)
@@ -1064,8 +1091,8 @@ func runC10sh(ctx *Ctx) *Result {
 	}
 	c10shCrossCheck(ctx, res, sample)
 
-	res.Evaluations = r.inputs * 15
-	res.TracesValidated = r.inputs * 15
+	res.Evaluations = r.inputs * 16
+	res.TracesValidated = r.inputs * 16
 	res.Exhaustive = false
 	for i, n := range r.quotHits {
 		res.Count("reached_from_plain."+c10shQuotNames[i], n)
